@@ -154,8 +154,9 @@ def run(ctx, rep):
     pco = prog.func("process.process_current_orders")
     d2 = {utext(s.targets[0]): utext(s.value) for s in walk_nodes(pco.node.body, ast.Assign)}
     gets = [c for c in walk_calls(pco.node.body) if call_name(c) == "get_order"]
-    rep.check(d2.get("order_id") == "current_order.customer_order_ref[STRATEGY_NAME_HASH_LENGTH + 1:]" and len(gets) == 1
-              and {k.arg: utext(k.value) for k in gets[0].keywords} == {"market_id": "current_order.market_id", "order_id": "order_id"},
+    from sa.kinds import resolve_local
+    rep.check(len(gets) == 1 and {k.arg: utext(resolve_local(pco, k.value)) for k in gets[0].keywords} ==
+              {"market_id": "current_order.market_id", "order_id": "current_order.customer_order_ref[STRATEGY_NAME_HASH_LENGTH + 1:]"},
               "R4", key(pco, None, "updates are routed by (market id, parsed order id)"), pco)
 
     # ------------------------------------------------------------------ R5 id independent of the patched clock
